@@ -58,13 +58,15 @@ def case_conservation(case):
     sl.pollute(nxe, nye, dx, dy)
     z, prof = sl.build_profiles(case["prof"], 4)
     nz = len(z)
-    levels = list(range(nz))
+    # every node of the column, requested top-down on odd lattice points (the surface node is then the LAST slot)
+    levels = list(range(nz)) if (nxe + nye + len(case["prof"])) % 2 == 0 else list(range(nz - 1, -1, -1))
     modes = (nxe, nye) if case["modes"] == "full" else tuple(case["modes"])
     prec = case["prec"]
     tol = 1e-9 if prec == "double" else 2e-5
-    Rex = sl.resistance_exact(case["prof"], z)
-    Rtr = sl.resistance_trapezoid(z, prof[4])
-    allow = 2.0 * np.abs(Rtr - Rex) + tol * Rex[-1]
+    order = np.argsort(levels)
+    Rex = sl.resistance_exact(case["prof"], z)[levels]
+    Rtr = sl.resistance_trapezoid(z, prof[4])[levels]
+    allow = 2.0 * np.abs(Rtr - Rex) + tol * Rex.max()
     rng = core.case_rng(seed, case)
     sources = []
     for j, i in itertools.product(range(ny), range(nx)):
@@ -94,7 +96,7 @@ def case_conservation(case):
         Rimpl = (bg - cm) / qm if qm != 0 else None
         if Rimpl is not None:
             dev = np.abs(Rimpl - Rex)
-            worst_c = max(worst_c, float(np.max(dev / np.maximum(Rex, Rex[1]))))
+            worst_c = max(worst_c, float(np.max(dev / np.maximum(Rex, np.sort(Rex)[1]))))
             bad = np.where(~(dev <= allow + 1e-9 * abs(bg / qm) + (2e-5 * abs(bg / qm) if prec == "single" else 0)))[0]
             if len(bad):
                 l = int(bad[0])
